@@ -318,6 +318,14 @@ impl<'a> LuaGen<'a> {
                 let b = self.block(depth - 1, ind + 1);
                 self.in_function -= 1;
                 self.vararg_ok.pop();
+                // a method that also declares a parameter called `self` (it shadows the implicit one) and reads it
+                if fname.contains(':') && self.r.chance(1, 3) {
+                    self.bump("method_with_explicit_self_parameter");
+                    let ps2 = if ps.is_empty() { "self".to_owned() } else { format!("self, {ps}") };
+                    let i2 = Self::indent(ind + 1);
+                    let tail = if b.trim_end().lines().last().map(|l| l.trim_start().starts_with("return")).unwrap_or(false) { String::new() } else { format!("{i2}return self\n") };
+                    return format!("{i}function {fname}({ps2})\n{i2}local _s = self\n{b}{tail}{i}end\n");
+                }
                 format!("{i}function {fname}({ps})\n{b}{i}end\n")
             }
             17 => {
